@@ -152,6 +152,11 @@ def sensitivity(props=None, tier='quick', runs=None):
             meta = json.load(open(os.path.join(
                 os.path.dirname(path), 'meta.json')))
             targets = meta.get('detected_by') or [meta['property']]
+            if meta.get('not_detected'):
+                print('%s: documented as out of reach of every check (%s)' % (
+                    name, meta['not_detected'][:110]))
+                results.append((name, 'stale'))
+                continue
             if meta.get('neutralised_by'):
                 print('%s: neutralised by repair %s (no longer breaks the '
                       'property on the current tree)' % (
